@@ -147,7 +147,7 @@ def _compose(cls, p, any_pre, req=None):
     mg("_create_violation_messages", BASE, params=rv, returns="Bag[RVM]", locals=l2, opaque=opq2, requires=allreq,
        ensures=[f"forall(RVM, lambda m: implies(m in result, {p}all_sound(self, rule_violations, m)))", f"{p}all_complete(self, rule_violations, result)"])
     # C03: every line is the rendering 'subject verb object.' of a record of some bucket; every bucket entry has its line; no line occurs twice (sorted(list(set)))
-    mg("create_rule_violation_messages", BASE, params=rv, returns="Bag[Str]", returns_nodup=True, locals=dict(messages="Set[Str]"), opaque=opq2, requires=allreq,
+    mg("create_rule_violation_messages", BASE, params=rv, returns="Bag[Str]", returns_nodup=True, locals=dict(messages="Set[Str]"), opaque=opq2 + [p + "other_img"], requires=allreq,
        ensures=[f"forall(Str, lambda t: implies(t in result, exists(RVM, lambda m: {p}all_sound(self, rule_violations, m) and t == line(m))))"]
        + [f"{p}noimp_complete_l(self, rule_violations.{b}, {pre_of(a)}, result)" for b, a in _NOIMP_BUCKETS]
        + [f"{p}other_complete_l(self, rule_violations.{b}, result)" for b in _OTHER_BUCKETS],   # together: {p}lines_post(self, rule_violations, result)
